@@ -36,6 +36,8 @@ pub struct Inst {
     /// leaves inserted through `azks.insert` (label -> (value, epoch)), for the C05 oracle
     pub leaves: BTreeMap<NodeLabel, ([u8; 32], u64)>,
     pub pk: Vec<u8>,
+    pub readonly: bool,
+    pub par: AzksParallelismConfig,
 }
 
 pub struct L1State {
@@ -48,6 +50,12 @@ pub struct L1State {
     pub st_log: Vec<DbRecord>,
     pub fx: Option<crate::exec_l3::FxState>,
     pub fx_roots: Vec<[u8; 32]>,
+    /// C14: probability (per mille) of dropping and re-creating the directory object before an op
+    pub perm_roots: Vec<[u8; 32]>,
+    pub restart_permille: u64,
+    /// C14: serve read operations through `ReadOnlyDirectory`
+    pub readonly: bool,
+    pub rng: crate::rng::Rng,
 }
 
 impl Default for L1State {
@@ -65,6 +73,10 @@ impl Default for L1State {
             st_log: vec![],
             fx: None,
             fx_roots: vec![],
+            perm_roots: vec![],
+            restart_permille: 0,
+            readonly: false,
+            rng: crate::rng::Rng::new(7),
         }
     }
 }
@@ -213,6 +225,8 @@ impl Inst {
             roots: BTreeMap::new(),
             leaves: BTreeMap::new(),
             pk,
+            readonly: false,
+            par,
         };
         if let Some((e, h)) = inst.epoch_hash().await {
             inst.roots.insert(e, h);
@@ -250,6 +264,14 @@ impl Inst {
     }
 
     pub async fn lookup(&self, u: &AkdLabel) -> Option<(LookupProof, u64, [u8; 32])> {
+        if self.readonly {
+            let vrf = HardCodedAkdVRF {};
+            let r = with_cfg!(self.cfg.as_str(), TC => {
+                let d = akd::directory::ReadOnlyDirectory::<TC, _, _>::new(self.storage.clone(), vrf, self.par).await.ok()?;
+                d.lookup(u.clone()).await
+            });
+            return r.ok().map(|(p, eh)| (p, eh.0, eh.1));
+        }
         let r = match &self.dir {
             AnyDir::W(d) => d.lookup(u.clone()).await,
             AnyDir::E(d) => d.lookup(u.clone()).await,
@@ -258,6 +280,14 @@ impl Inst {
     }
 
     pub async fn history(&self, u: &AkdLabel, p: HistoryParams) -> Option<(HistoryProof, u64, [u8; 32])> {
+        if self.readonly {
+            let vrf = HardCodedAkdVRF {};
+            let r = with_cfg!(self.cfg.as_str(), TC => {
+                let d = akd::directory::ReadOnlyDirectory::<TC, _, _>::new(self.storage.clone(), vrf, self.par).await.ok()?;
+                d.key_history(u, p).await
+            });
+            return r.ok().map(|(p, eh)| (p, eh.0, eh.1));
+        }
         let r = match &self.dir {
             AnyDir::W(d) => d.key_history(u, p).await,
             AnyDir::E(d) => d.key_history(u, p).await,
@@ -266,6 +296,14 @@ impl Inst {
     }
 
     pub async fn audit(&self, s: u64, e: u64) -> Option<AppendOnlyProof> {
+        if self.readonly {
+            let vrf = HardCodedAkdVRF {};
+            let r = with_cfg!(self.cfg.as_str(), TC => {
+                let d = akd::directory::ReadOnlyDirectory::<TC, _, _>::new(self.storage.clone(), vrf, self.par).await.ok()?;
+                d.audit(s, e).await
+            });
+            return r.ok();
+        }
         let r = match &self.dir {
             AnyDir::W(d) => d.audit(s, e).await,
             AnyDir::E(d) => d.audit(s, e).await,
@@ -931,10 +969,22 @@ pub fn step(ex: &mut Exec, toks: &[&str]) -> Option<String> {
 }
 
 fn step_inner(ex: &mut Exec, st: &mut L1State, op: &str, toks: &[&str]) -> Option<String> {
+    if st.restart_permille > 0 && (op.starts_with("dir.") || op.starts_with("spec.") || op.starts_with("azks.")) && st.rng.below(1000) < st.restart_permille {
+        // drop the directory object (and its storage manager / cache) and re-create it over the same database
+        if let Some(old) = st.inst.take() {
+            let mut inst = st.rt.block_on(Inst::open(&old.cfg, old.db.clone(), &st.cache_mode, st.parallelism))?;
+            inst.roots = old.roots;
+            inst.leaves = old.leaves;
+            inst.readonly = st.readonly;
+            st.inst = Some(inst);
+            ex.stats.bump("restart", "done");
+        }
+    }
     match op {
         "reset" if toks.len() == 2 => {
             st.fx = None;
-            let inst = st.rt.block_on(Inst::new(toks[1], &st.cache_mode, st.parallelism))?;
+            let mut inst = st.rt.block_on(Inst::new(toks[1], &st.cache_mode, st.parallelism))?;
+            inst.readonly = st.readonly;
             st.inst = Some(inst);
             ex.stats.bump(op, toks[1]);
             Some("ok".into())
@@ -1157,10 +1207,35 @@ fn step_inner(ex: &mut Exec, st: &mut L1State, op: &str, toks: &[&str]) -> Optio
                 }
             }
         }
+        "perm.group" => {
+            st.perm_roots.clear();
+            Some("ok".into())
+        }
+        "perm.end" => {
+            // oracle (C14): the same leaf set, in any order and any split within one epoch, gives one tree
+            let mut distinct = st.perm_roots.clone();
+            distinct.sort();
+            distinct.dedup();
+            if distinct.len() > 1 {
+                ex.fail_tag("C14", "order-dependent-tree", format!("the same leaf set produced {} different root hashes depending on insertion order / sub-batching", distinct.len()));
+            }
+            Some("ok".into())
+        }
+        "azks.setepoch" if toks.len() == 2 => {
+            let inst = st.inst.as_ref()?;
+            let e: u64 = toks[1].parse().ok()?;
+            let mut azks = st.rt.block_on(inst.azks())?;
+            azks.latest_epoch = e;
+            st.rt.block_on(inst.storage.set(DbRecord::Azks(azks))).ok()?;
+            Some("ok".into())
+        }
         "azks.root" => {
             let inst = st.inst.as_ref()?;
             match st.rt.block_on(inst.epoch_hash()) {
-                Some((_, h)) => Some(hex32(&h)),
+                Some((_, h)) => {
+                    st.perm_roots.push(h);
+                    Some(hex32(&h))
+                }
                 None => Some("err".into()),
             }
         }
